@@ -64,20 +64,22 @@ def column_reference_out_of_range(n: int) -> bool:
     return False
 
 
-@cond(timeout=2400, tiers=("thorough",), encodes=ENC + ["xlsxwriter.utility:xl_col_to_name"],
+COLS = [1, 2, 25, 26, 27, 28, 51, 52, 53, 701, 702, 703, 704, 728, 729, 16383, 16384]
+
+
+@cond(timeout=600, tiers=("thorough",), encodes=ENC + ["xlsxwriter.utility:xl_col_to_name"],
       bound="differential against xlsxwriter's own xl_col_to_name(n - 1) (the function that names the column a cell is really "
-            "written to): n every int in 1..800 (A..ZZ and the first three-letter columns; the loop over letters forks per "
-            "letter, 16384 values do not finish); compared by decoded value and length")
-def column_reference_matches_xlsxwriter(n: int) -> bool:
+            "written to) on 17 boundary column numbers around Z/AA, ZZ/AAA and the last column (symbolic index, concrete per path: "
+            "with a symbolic n the two letter loops fork per letter and do not finish)")
+def column_reference_matches_xlsxwriter(i: int) -> bool:
     """
-    pre: 1 <= n <= 800
+    pre: 0 <= i < len(COLS)
     post: _
     """
     from xlsxwriter.utility import xl_col_to_name
 
-    a = CategoryWorkbookWriter._column_reference(n)
-    b = xl_col_to_name(n - 1)
-    return len(a) == len(b) and _decode(a) == _decode(b)
+    n = choose(COLS, i)
+    return CategoryWorkbookWriter._column_reference(n) == xl_col_to_name(n - 1)
 
 
 # ------------------------------------------------------------------ recording worksheet
